@@ -58,7 +58,11 @@ Definition WInv (w : world) : Prop :=
 
 (* an operation can only be applied to objects that exist *)
 Definition op_wf (w : world) (o : op) : Prop :=
-  match o with AddTaxon t => t < w_next w | _ => True end.
+  match o with
+  | AddTaxon t => t < w_next w
+  | AddTaxa ts => forall t, In t ts -> t < w_next w
+  | _ => True
+  end.
 
 Fixpoint ops_wf (w : world) (ops : list op) : Prop :=
   match ops with
@@ -80,9 +84,10 @@ Proof.
   destruct (op_eq_DeepCopy_dec o) as [E|E].
   - subst. cbn [step fst] in *. apply deep_copy_members in H. lia.
   - destruct (step_trans lower w o E) as [S|[S|(b & _ & S)]].
-    + destruct (star_grow_members _ _ _ x S H) as [H1|[H1|H1]].
+    + destruct (star_grow_members _ _ _ x S H) as [H1|[H1|[H1|H1]]].
       * apply B in H1. lia.
       * subst o. simpl in F. lia.
+      * destruct H1 as (ts & Eo & Hin). subst o. simpl in F. apply F in Hin. lia.
       * lia.
     + apply star_shrinks in S. apply (s_taxa _ _ S) in H. apply B in H. lia.
     + rewrite S in H. unfold set_mut in H. cbn [taxa] in H. apply B in H. lia.
